@@ -182,9 +182,7 @@ class BLOB(Element):
 
     def to_set_message(self):
         if self.value is None:
-            return self.set_message_class(
-                name=self._definition.name, value=None, format=None, size=None
-            )
+            return None
         return self.set_message_class(
             name=self._definition.name,
             value=self.value.binary_base64,
